@@ -377,6 +377,48 @@ pub fn run() -> i32 {
                         go(format!("mixed-order-R(T#{},msg+{})", ti, j), &sg, &mm, &pk, false, st);
                     }
                 }
+                // (c) torsion in BOTH the public key and R. With A' = A + T and R' = R - iT the
+                // cofactorless equation holds exactly when k T = iT, so for about one i in
+                // (order of T) the signature is VALID under libsodium's strict rules (R' is of
+                // mixed, not small, order); the verdict must be the same either way.
+                let mut mult: Vec<B32> = vec![{ let mut id = [0u8; 32]; id[0] = 1; id }];
+                for j in 1..8 {
+                    match sodium::ed_add(&mult[j - 1], t) {
+                        Some(x) => mult.push(x),
+                        None => break,
+                    }
+                }
+                if mult.len() == 8 && mult[1] != mult[0] {
+                    for j in 0..8u8 {
+                        let mut mm = m.clone();
+                        mm.push(0x80 | j);
+                        let mut pre = h[32..].to_vec();
+                        pre.extend_from_slice(&mm);
+                        let r = sodium::sc_reduce64(&sodium::sha512(&pre));
+                        let Some(rp) = sodium::ed_base_noclamp(&r) else { continue };
+                        for i in 1..8usize {
+                            if mult[i] == mult[0] {
+                                continue;
+                            }
+                            let Some(r_mixed) = sodium::ed_sub(&rp, &mult[i]) else { continue };
+                            let mut hin = r_mixed.to_vec();
+                            hin.extend_from_slice(&a_mixed);
+                            hin.extend_from_slice(&mm);
+                            let k = sodium::sc_reduce64(&sodium::sha512(&hin));
+                            let s_ = sodium::sc_add(&r, &sodium::sc_mul(&k, &a_red));
+                            let mut sg = [0u8; 64];
+                            sg[..32].copy_from_slice(&r_mixed);
+                            sg[32..].copy_from_slice(&s_);
+                            if mult[(k[0] & 7) as usize] == mult[i] {
+                                st.bump("torsion_cancelling_signatures_built", 1);
+                                if sodium::sign_verify_detached(&sg, &mm, &a_mixed) {
+                                    st.bump("torsion_cancelling_signatures_libsodium_accepts", 1);
+                                }
+                            }
+                            go(format!("mixed-order-A-and-R(T#{},msg+{},i={})", ti, j, i), &sg, &mm, &a_mixed, false, st);
+                        }
+                    }
+                }
             }
         }
         // forgeries under a small-order public key that satisfy the cofactorless equation
